@@ -29,6 +29,7 @@ type c09 struct {
 	pool    []Item
 	steps   []uint64
 	offsets []uint64
+	initV   []Violation // corpus pairs that do not even run unfaulted
 }
 
 func init() { register(&c09{}) }
@@ -59,7 +60,7 @@ func (c *c09) Assumptions() []string {
 }
 
 func (c *c09) ProbeNames() []string {
-	return []string{"text_cut_mid_match", "text_emptied", "text_corrupted", "delivery_string", "delivery_file", "delivery_directory", "program_survived_source_fault", "empty_file_delivered", "zero_matches_result", "replace_program_run"}
+	return []string{"text_cut_mid_match", "text_emptied", "text_corrupted", "delivery_string", "delivery_file", "delivery_directory", "program_survived_source_fault", "empty_file_delivered", "zero_matches_result", "replace_program_run", "boundary_sized_input"}
 }
 
 func (c *c09) SweepPrefix(phase string, i uint64) []uint64 {
@@ -122,8 +123,16 @@ func (c *c09) Init(env *Env) error {
 		simrt.OpEnd()
 		st := simrt.Steps
 		simrt.Stop()
-		if o.Class == "error" || o.Class == "abort" {
-			continue // not accepted, or too slow to be a base
+		if os.Getenv("VORESIM_DEBUG") != "" {
+			fmt.Fprintf(os.Stderr, "C09 base %-40s class=%s steps=%d\n", trunc(it.Name, 40), o.Class, st)
+		}
+		if o.Class == "abort" {
+			// every corpus pair runs in well under a twentieth of this budget on a healthy tree
+			c.initV = append(c.initV, Violation{"returns", "run-abort:base:" + o.Detail, fmt.Sprintf("the unfaulted corpus pair %q (program %q on %q) did not return within 8000000 steps (%s)", it.Name, trunc(it.Src, 120), trunc(it.Text, 60), o.Detail)})
+			continue
+		}
+		if o.Class == "error" {
+			continue // not accepted
 		}
 		c.pool = append(c.pool, it)
 		c.steps = append(c.steps, st)
@@ -185,6 +194,9 @@ func (c *c09) Run(ctx *RunCtx) *RunResult {
 		if !hasKey(res.Violations, key) {
 			res.Violations = append(res.Violations, Violation{oracle, key, detail})
 		}
+	}
+	for _, v := range c.initV {
+		addV(v.Oracle, v.Key, v.Detail)
 	}
 	pi := t.Draw(len(c.pool))
 	it := c.pool[pi]
@@ -269,6 +281,25 @@ func (c *c09) Run(ctx *RunCtx) *RunResult {
 			ctx.Count("fault_duplication", 1)
 			changed = true
 			growth = 2
+		}
+	}
+	// boundary-sized files: pad in front so that the interesting text sits
+	// beyond the first read window of a file-backed reader
+	if t.Draw(24) == 1 {
+		target := []int{2100, 4096, 4097, 6000, 8193}[t.Draw(5)]
+		if len(text) < target {
+			pad := make([]byte, 0, target)
+			i := uint64(0)
+			for len(pad) < target-len(text) {
+				pad = append(pad, fillerWords[mix(i, 9)%uint64(len(fillerWords))]...)
+				pad = append(pad, ' ')
+				i++
+			}
+			text = append(pad[:target-len(text)], text...)
+			prefixOnly = false
+			changed = true
+			faults = append(faults, fmt.Sprintf("padded-to-%d", target))
+			ctx.Count("boundary_sized_input", 1)
 		}
 	}
 	d := &c09desc{Program: trunc(src, 300), Mutated: mutated, Delivery: delivery, Faults: faults, Text: trunc(string(text), 200)}
